@@ -94,6 +94,19 @@ impl Meta {
     pub fn variable_knowledge_mut(&mut self) -> &mut VariableKnowledge {
         &mut self.variable_knowledge
     }
+
+    /// Returns a copy of the metadata without the cached variable use.
+    #[must_use]
+    pub(crate) fn without_variable_knowledge(&self) -> Meta {
+        Meta {
+            location: self.location.clone(),
+            file_id: self.file_id,
+            degree_knowledge: self.degree_knowledge.clone(),
+            type_knowledge: self.type_knowledge.clone(),
+            value_knowledge: self.value_knowledge.clone(),
+            variable_knowledge: VariableKnowledge::default(),
+        }
+    }
 }
 
 impl std::hash::Hash for Meta {
